@@ -435,6 +435,16 @@ class World:
                 # read (shipped nodes: only modules implemented in the demo / simulation packages are read,
                 # others would try to reach real hardware through tango / epics / serial lines)
                 n0 = len(events)
+                if generated is not None and 'constant' in ad and gt.get((mn, an)) and rng.random() < 0.5:
+                    # module code touches the cached value of the constant (an assignment in a command, a poll): a read
+                    # request still gives the described constant
+                    p_ = gt[(mn, an)]
+                    try:
+                        other = gen_dt.to_py(p_['spec'], gen_dt.complete(p_['spec'], gen_dt.gen_valid(p_['spec'], rng, True), rng))
+                        setattr(node.secnode.modules[mn], p_['name'], other)
+                        r.count('constants_assigned_by_module_code_before_the_read')
+                    except Exception:
+                        pass
                 if generated is None and 'constant' not in ad and not self.sim_safe(node, mn):
                     r.count('reads_skipped_hardware_class')
                     st, rep = 'skipped', None
